@@ -32,7 +32,7 @@ Section Matcher.
     | [] => []
     | x :: t => match row_hash t with
                 | [] => [x]
-                | y :: _ as t' => (x || y) :: t'
+                | (y :: _) as t' => (x || y) :: t'
                 end
     end.
 
